@@ -381,8 +381,8 @@ def gen_runs(ctx, prop):
         runs.append((tag, base))
 
     if not ctx.thorough:
-        R("one_full_dev2", MaxItems=1, MaxDev=2, PoolA=full, Feat={"trail", "section", "annot", "block", "target", "comment"}, Knobs=K)
-        R("one_headers", MaxItems=1, MaxDev=1, PoolA=micro, HeaderMode="all", HeaderMaxBody=1, Feat={"comment", "block"},
+        R("one_full_dev2", MaxItems=1, MaxDev=2, PoolA=full, Feat={"trail", "section", "annot", "block", "target", "comment", "hoist"}, Knobs=K)
+        R("one_headers", MaxItems=2, MaxDev=1, PoolA=micro, PoolB={"w"}, HeaderMode="all", HeaderMaxBody=2, Feat={"comment", "block", "hoist"},
           Knobs={"alt", "ind", "final", "endOmit", "envOmit", "blank"})
         R("two_core_dev1", MaxItems=2, MaxDepth=1, MaxDev=1, PoolA=core, PoolB=micro, Feat=feat_all, Knobs=K)
         R("three_struct", MaxItems=3, MaxDepth=2, MaxDev=0, PoolA={"w", "l3"}, PoolB={"int", "z1"}, PoolC={"w", "l3"}, Feat=feat_struct)
@@ -394,9 +394,9 @@ def gen_runs(ctx, prop):
           Feat={"block", "section"})
     else:
         # sized to about 1M documents in total (measured state counts in comments); the whole list is held in memory and replayed
-        R("one_full_dev3", MaxItems=1, MaxDev=3, PoolA=full, Feat={"trail", "section", "annot", "block", "target", "comment"}, Knobs=K)
-        R("two_headers", MaxItems=2, MaxDepth=1, MaxDev=1, PoolA=mini, PoolB=micro, HeaderMode="all", HeaderMaxBody=1,
-          Feat={"comment", "block", "section"}, Knobs=K)
+        R("one_full_dev3", MaxItems=1, MaxDev=3, PoolA=full, Feat={"trail", "section", "annot", "block", "target", "comment", "hoist"}, Knobs=K)
+        R("two_headers", MaxItems=2, MaxDepth=1, MaxDev=1, PoolA=mini, PoolB=micro, HeaderMode="all", HeaderMaxBody=2,
+          Feat={"comment", "block", "section", "hoist"}, Knobs=K)
         R("two_full_dev1", MaxItems=2, MaxDepth=1, MaxDev=1, PoolA=full, PoolB=core, Feat=feat_all, Knobs=K)
         R("two_core_dev2", MaxItems=2, MaxDepth=1, MaxDev=2, PoolA=core, PoolB=micro, Feat=feat_struct, Knobs=K)
         R("three_mini_dev1", MaxItems=3, MaxDepth=2, MaxDev=1, PoolA=mini, PoolB=mini, PoolC=micro, Feat=feat_struct, Knobs={"alt", "ind", "cind", "blank", "op"})
